@@ -28,6 +28,9 @@ Post(e) ==
 \* first problem in the observation, as a short code
 Judge(e, c) ==
   IF e.ev = "Panic" THEN "panic"
+  \* an index the term index never issued (the precondition of get_term is violated: "may panic"): safe code gets a panic, the default
+  \* graph, or one of the index's own terms - anything else is memory the index does not own
+  ELSE IF e.ev = "ForeignIndex" THEN (IF e.out.k \in {"panic", "own-term", "default-graph"} THEN "ok" ELSE "foreign-index-reads-foreign-memory")
   ELSE IF {e.obs[i].id : i \in 1..Len(e.obs)} # DOMAIN c THEN "live-set"
   ELSE IF \E i \in 1..Len(e.obs) : ~e.obs[i].audit THEN "not-self-contained"
   ELSE IF \E i \in 1..Len(e.obs) : {Norm(e.obs[i].content[j]) : j \in 1..Len(e.obs[i].content)} # c[e.obs[i].id] THEN "content"
